@@ -59,13 +59,24 @@ func (v *Vstr) IsValidValue(s string) error {
 	return nil
 }
 
-// Color: Completer (custom 2).
+func asciiLower(s string) string {
+	b := []byte(s)
+	for i, c := range b {
+		if c >= 'A' && c <= 'Z' {
+			b[i] = c + 0x20
+		}
+	}
+	return string(b)
+}
+
+// Color: Completer (custom 2).  What was typed is matched without regard to (ASCII) letter case, so
+// an offered item need not be a literal extension of the typed word.
 type Color string
 
 func (c *Color) Complete(match string) []flags.Completion {
 	var out []flags.Completion
 	for _, n := range []string{"red", "green", "blue", "grey"} {
-		if strings.HasPrefix(n, match) {
+		if strings.HasPrefix(n, asciiLower(match)) {
 			out = append(out, flags.Completion{Item: n})
 		}
 	}
